@@ -592,6 +592,14 @@ func (m *Monitor) beforeCall(i int, op *Op, f *Fn) {
 		st.av = m.availParams(start)
 		st.mustR, st.mustD = m.must(start)
 		st.cycReq = m.mustCycleFrom(start)
+		// a cycle lying entirely in one scope that the invoking scope sees (optional edges and
+		// already-built members included) with a member in the closure: dig's own graph of the
+		// invoking scope contains it, whatever has been built
+		for r := range m.sameScopeCycleMembers(op.Scope) {
+			if st.may[r.F.ID] {
+				st.cycReq = true
+			}
+		}
 		var firsts []*Reg
 		tmp := &Reg{F: f, O: op.Scope, H: op.Scope}
 		firsts = m.gsEdges(tmp, true)
@@ -605,6 +613,53 @@ func (m *Monitor) beforeCall(i int, op *Op, f *Fn) {
 		st.onCycle = m.requiredCycleMembers()
 		m.inv = st
 	}
+}
+
+// sameScopeCycleMembers: registrations lying on a Gs cycle (optional edges included, done members
+// included) all of whose members are provided to, and homed in, one scope visible from s.
+func (m *Monitor) sameScopeCycleMembers(s int) map[*Reg]bool {
+	out := map[*Reg]bool{}
+	for sc := s; sc >= 0; sc = m.parent[sc] {
+		var nodes []*Reg
+		for _, r := range m.regs {
+			if r.O == sc && r.H == sc {
+				nodes = append(nodes, r)
+			}
+		}
+		if len(nodes) == 0 {
+			continue
+		}
+		idx := map[*Reg]int{}
+		for i, r := range nodes {
+			idx[r] = i
+		}
+		adj := make([][]int, len(nodes))
+		for i, r := range nodes {
+			for _, x := range m.gsEdges(r, true) {
+				if j, ok := idx[x]; ok {
+					adj[i] = append(adj[i], j)
+				}
+			}
+		}
+		for i := range nodes {
+			seen := make([]bool, len(nodes))
+			q := append([]int(nil), adj[i]...)
+			for len(q) > 0 {
+				u := q[0]
+				q = q[1:]
+				if u == i {
+					out[nodes[i]] = true
+					break
+				}
+				if seen[u] {
+					continue
+				}
+				seen[u] = true
+				q = append(q, adj[u]...)
+			}
+		}
+	}
+	return out
 }
 
 // requiredCycleMembers: registrations on a cycle made only of required single /
@@ -720,14 +775,14 @@ func (m *Monitor) afterCall(i int, op *Op, f *Fn, rec *OpRec) {
 					m.violate("C05,C13,C16", "C05.spurious-cycle", "Provide of f%d rejected as a cycle but the permissive graph is acyclic: %v", f.ID, rec.Err)
 				}
 			case cl != VOk:
-				m.violate("C09,C14", "C09.valid-rejected", "valid Provide of f%d rejected: %s %v", f.ID, cl, rec.Err)
+				m.violate("C09,C14,C06", "C09.valid-rejected", "valid Provide of f%d rejected: %s %v", f.ID, cl, rec.Err)
 			}
 		default: // decorate
 			if pc.dup && cl == VOk {
 				m.violate("C12", "C12.dup-decorator-accepted", "second decorator f%d for an already decorated key accepted in s%d", f.ID, op.Scope)
 			}
 			if !pc.dup && cl != VOk {
-				m.violate("C12,C14", "C12.valid-decorate-rejected", "valid Decorate of f%d rejected: %s %v", f.ID, cl, rec.Err)
+				m.violate("C12,C14,C06", "C12.valid-decorate-rejected", "valid Decorate of f%d rejected: %s %v", f.ID, cl, rec.Err)
 			}
 			if cl == VCycle {
 				m.violate("C13", "C13.cycle-misclassified", "Decorate rejection reports IsCycleDetected")
